@@ -48,9 +48,10 @@ from concurrent.futures import ThreadPoolExecutor
 from harness.common import lean_list, lean_str, rat, unrat, corpus_cases
 
 PID = 'C19'
-MODULES = ['NoteSeqVerif.Props.C19', 'NoteSeqVerif.Props.C19_float']
+_PROG = 'NoteSeqVerif.Props.C19_programs'     # the unpitched-program table: its own module, so a changed table breaks only these
+MODULES = ['NoteSeqVerif.Props.C19', 'NoteSeqVerif.Props.C19_float', _PROG]
 EXE = 'drv_c19'
-THEOREMS = [
+_T = [
     'NSV.C19.argmax_first_max', 'NSV.C19.viterbi_run_eq', 'NSV.C19.viterbi_exec_eq',
     'NSV.C19.viterbi_optimal', 'NSV.C19.viterbi_error_iff',
     'NSV.C19.keychord_viterbi_optimal', 'NSV.C19.melody_viterbi_optimal',
@@ -62,7 +63,8 @@ THEOREMS = [
     'NSV.C19.chord_annotations_wf', 'NSV.C19.chord_times_nondecreasing', 'NSV.C19.perChord_times_monotone',
     'NSV.C19.melody_notes_wf', 'NSV.C19.melody_writer_ok', 'NSV.C19.melody_instrument_fresh',
     'NSV.C19.noteFrames_onset',
-    'NSV.C19.unpitched_table_gm', 'NSV.C19.unpitched_iff', 'NSV.C19.noteFrames_onset_gm', 'NSV.C19.noteFrames_pitched_seen',
+    (_PROG, 'NSV.C19.unpitched_table_gm'), (_PROG, 'NSV.C19.unpitched_iff'), (_PROG, 'NSV.C19.noteFrames_onset_gm'),
+    (_PROG, 'NSV.C19.noteFrames_pitched_seen'),
     ('NoteSeqVerif.Props.C19_float', 'NSV.C19.mono_extq'), ('NoteSeqVerif.Props.C19_float', 'NSV.C19.mono_extq_rne53'),
     ('NoteSeqVerif.Props.C19_float', 'NSV.C19.extq_absorbing'),
     ('NoteSeqVerif.Props.C19_float', 'NSV.C19.keychord_viterbi_optimal_float'),
@@ -70,6 +72,7 @@ THEOREMS = [
     ('NoteSeqVerif.Props.C19_float', 'NSV.C19.viterbi_path_finite_float'),
     ('NoteSeqVerif.Props.C19_float', 'NSV.C19.chord_times_nondecreasing_float'),
 ]
+THEOREMS = [t if isinstance(t, tuple) else ('NoteSeqVerif.Props.C19', t) for t in _T]
 
 NINF = float('-inf')
 # General MIDI level 1, program numbers 1-based: 97-104 synth effects, 113-120 percussive, 121-128 sound effects are the
@@ -1395,6 +1398,14 @@ def run(chk):
 
     def fail_once(what, replay):
         fid = getattr(what, 'finding', None)
+        if fid is None and replay.get('kind') in ('chords-history', 'melody-history', 'helper-history'):
+            # a whole call sequence: self-contained whatever the cause (state or not), so it is reported before the
+            # single-call failures of the main streams (whose replays start from a fresh process) and outside their cap
+            if sum(1 for f in chk.failures if f['replay'].get('kind') == replay['kind']) < 3:
+                chk.fail(str(what), replay, finding=None)
+                nh = sum(1 for f in chk.failures[:-1] if str(f['replay'].get('kind', '')).endswith('-history'))
+                chk.failures.insert(nh, chk.failures.pop())      # after the earlier history failures, before the rest
+            return
         if sum(1 for f in chk.failures if f['finding'] == fid) < (5 if fid else 25):
             chk.fail(str(what), replay, finding=fid)
 
